@@ -473,13 +473,17 @@ def executed_paths(model, run):
 
 
 # (the last two contain a comma: a repetition range and a tuple type's label)
-FILTER_ALPHABET = ["ign", "^zoo::f00", "a_", "g_t", "inherited", "::1$", "m::", "(TA|x)$", "zoo::nest::a::same", "Shown As", "^zo{1,2}::f0[0-2]", r"\(u8, zoo::TA\)$"]
+FILTER_ALPHABET = ["ign", "^zoo::f00", "a_", "g_t", "inherited", "::1$", "m::", "(TA|x)$", "zoo::nest::a::same", "Shown As", "^zo{1,2}::f0[0-2]", r"\(u8, zoo::TA\)$",
+                   # the case whose argument is the empty string: its path ends with the separator
+                   "::$"]
 
 
 # Patterns that match an inner node (a module path, a group's Rust name that its display name
 # replaces, the crate root) but no complete case path below it: as skip filters they must exclude
 # nothing, as positive filters select nothing.
-INNER_ONLY = ["^zoo$", "outer$", "ign::ig$", "f002::outer::inner", "B_group", "ig_attr", "^zoo::nest::a$", "r#type"]
+INNER_ONLY = ["^zoo$", "outer$", "ign::ig$", "f002::outer::inner", "B_group", "ig_attr", "^zoo::nest::a$", "r#type",
+              # the benchmark above an empty-string argument (`P` is not the path of the case `P::`)
+              "a_weird_strs$"]
 
 
 def filter_sets(tier, model):
@@ -515,6 +519,9 @@ def filter_sets(tier, model):
     # exact filters: whole paths (a case, a case with argument, an inner node, a non-path)
     paths = [c["path"] for c in model["cases"]]
     ex = [paths[0], paths[len(paths) // 3], next(p for p in paths if p.endswith("::1")), "zoo::ign::ig", "zoo", "nothing", next(p for p in paths if p.endswith("(u8, zoo::TA)"))]
+    # a benchmark with an empty-string argument: `P` names an inner node, `P::` the case
+    empty = next(p for p in paths if p.endswith("::a_weird_strs::"))
+    ex += [empty, empty[:-2]]
     for e in ex:
         sets.append(((e,), (), True))
         sets.append(((), (e,), True))
@@ -1571,7 +1578,55 @@ def check_c15(tier, seed, chk):
 
 
 def check_c03(tier, seed, chk):
-    return check_options(tier, seed, chk, "C03")
+    out = check_options(tier, seed, chk, "C03")
+    res = out[0]
+    # The action asked for through the API (test_benches / run_benches) decides how often the function is
+    # called, whatever action the Divan value was configured with by the command line.
+    binary, model = ensure_built(tier, chk)
+    ncpu = model["_ncpu"]
+    benches = {b["id"]: b for b in model["benches"]}
+    sel = [c for c in model["cases"] if c["path"].startswith("zoo::opt::") and runs_under("none", c)]
+    routes = [
+        ("test_benches() on a Divan configured for benchmarking (no action flag)", [], "from_args;test", "test"),
+        ("test_benches() on a Divan configured with --bench", ["--bench"], "from_args;test", "test"),
+        ("test_benches() on a Divan configured with --list", ["--list"], "from_args;test", "test"),
+        ("run_benches() on a Divan configured with --test", ["--test", "--timer", "tsc"], "from_args;bench", "bench"),
+        ("run_benches() on a Divan configured with --list", ["--list", "--timer", "tsc"], "from_args;bench", "bench"),
+    ]
+
+    def one(route):
+        name, argv, mode, action = route
+        return route, run_zoo(binary, argv + ["^zoo::opt::"], {"ZOO_MODE": mode}, clock=CLOCK, timeout=600)
+
+    for (name, argv, mode, action), r in pmap(one, routes):
+        count_run(res, r, len(r.log))
+        sig = {"check": "requested-action", "requested": action, "configured": (argv or ["none"])[0]}
+        if r.rc != 0:
+            violation(res, dict(sig, **{"class": "crash"}), "%s: exit %s: %s" % (name, r.rc, r.err[-300:]), r)
+            continue
+        if action == "test":
+            want, got = expected_records(model, sel), observed_records(r)
+            if want != got:
+                diff = sorted(set(want) ^ set(got))[:3]
+                violation(res, dict(sig, **{"class": "call-count"}),
+                          "%s: test mode calls each function once per thread; %d invocation records instead of %d, e.g. %s" % (name, len(got), len(want), diff), r)
+        else:
+            hits = {}
+            for rec in r.log:
+                if rec[0] == "HIT":
+                    hits[tuple(rec[1:5])] = hits.get(tuple(rec[1:5]), 0) + 1
+            for c in sel:
+                b = benches[c["bench"]]
+                calls, _rows = expected_bench_mode(b, ncpu, {})
+                if calls is None or b.get("body") == "quiet":
+                    continue
+                got_calls = hits.get((str(b["id"]), c["arg"] if c["arg"] is not None else "-", c["type"] or "-", c["const"] or "-"), 0)
+                if got_calls != calls:
+                    violation(res, dict(sig, **{"class": "call-count"}),
+                              "%s: %s was called %d times, its options demand %d" % (name, c["path"], got_calls, calls), r)
+                    break
+    res["bounds"]["requested_vs_configured_action"] = [x[0] for x in routes]
+    return out
 
 
 def _time_source(x):
